@@ -13,6 +13,47 @@ from sigpyproc.core.rfi import RFIMask
 from sigpyproc.readers import FilReader
 
 
+def _z(d, scale):
+    """z-scores with the library's fall-back to unit scale for a zero / undefined scale"""
+    scale = np.where((np.abs(scale) <= 1e-8) | ~np.isfinite(scale), 1.0, scale)
+    return (d - np.median(d)) / scale
+
+
+def ref_iqrm(x, thr, radius=5):
+    """IQRM by its definition: for every lag in [-radius..-1, 1..radius] the differences x[i] - x[i+lag] (edge value
+    repeated outside the band) are standardised by their median and normalised inter-quartile range; a channel is
+    flagged when any |z| exceeds the threshold.  Returns (sure-outliers, undecided: some |z| within 1e-3 of thr)."""
+    x = np.asarray(x, dtype=np.float64)
+    n = len(x)
+    out = np.zeros(n, dtype=bool)
+    near = np.zeros(n, dtype=bool)
+    for lag in list(range(-radius, 0)) + list(range(1, radius + 1)):
+        idx = np.clip(np.arange(n) + lag, 0, n - 1)
+        d = x - x[idx]
+        q25, q75 = np.percentile(d, [25, 75])
+        z = np.abs(_z(d, (q75 - q25) / 1.3489795003921634))
+        out |= z > thr
+        near |= np.abs(z - thr) <= 1e-3 * thr
+    return out, near
+
+
+def ref_doublemad(x, thr):
+    x = np.asarray(x, dtype=np.float64)
+    med = np.median(x)
+    dev = np.abs(x - med)
+    norm, norm_aad = 0.6744897501960817, np.sqrt(2 / np.pi)
+    left, right = dev[x <= med], dev[x >= med]
+    ml, mr = np.median(left) / norm, np.median(right) / norm
+    if abs(ml) <= 1e-8:
+        ml = left.mean() / norm_aad
+    if abs(mr) <= 1e-8:
+        mr = right.mean() / norm_aad
+    scale = np.where(x < med, ml, mr)
+    scale = np.where((np.abs(scale) <= 1e-8) | ~np.isfinite(scale), 1.0, scale)
+    z = np.abs((x - med) / scale)
+    return z > thr, np.abs(z - thr) <= 1e-3 * thr
+
+
 def sweep_impl(rep, tier, seed):
     rng = np.random.default_rng(seed)
     tmp = tempfile.mkdtemp(prefix="c16_")
@@ -54,6 +95,19 @@ def sweep_impl(rep, tier, seed):
                             stats = fn(mask.chan_var, 3) | fn(mask.chan_skew, 3) | fn(mask.chan_kurt, 3)
                             rep.check(np.array_equal(mask.stats_mask, stats), "stats mask is not the union of the variance/skewness/kurtosis outliers",
                                       function="core/rfi.py::RFIMask.apply_method", input=inp)
+                            # ... and against an independent evaluation of the outlier rule (channels whose statistic sits
+                            # within 0.1 % of the threshold are left out: float32 vs float64)
+                            ref_fn = ref_doublemad if method == "mad" else ref_iqrm
+                            sure = np.zeros(nchans, dtype=bool)
+                            near = np.zeros(nchans, dtype=bool)
+                            for stat in (mask.chan_var, mask.chan_skew, mask.chan_kurt):
+                                o_, n_ = ref_fn(stat, 3)
+                                sure |= o_
+                                near |= n_
+                            ok_stats = bool(np.all((mask.stats_mask == sure) | near))
+                            rep.check(ok_stats, "stats mask differs from the outlier rule evaluated independently (variance/skewness/kurtosis beyond the threshold)",
+                                      function=f"core/rfi.py::{'double_mad_mask' if method == 'mad' else 'iqrm_mask'}", input=inp,
+                                      observed=np.nonzero(mask.stats_mask & ~near)[0].tolist()[:20], required=np.nonzero(sure & ~near)[0].tolist()[:20])
                             union = mask.user_mask | mask.stats_mask | mask.custom_mask
                             rep.check(np.array_equal(mask.chan_mask, union), "channel mask is not the union of user, stats and custom masks",
                                       function="core/rfi.py::RFIMask", input=inp, observed=np.nonzero(mask.chan_mask)[0].tolist(),
